@@ -18,7 +18,7 @@ from vmon.ref import structcmp
 
 ID = 'C13'
 RULE = ('one case = (named crystal: sc fcc bcc diamond hcp square tria honey lieb kagome omega rumpled dtria b2 l12 tet rect, '
-        'i.e. 2-D and 3-D, multi-site, multi-Wyckoff, two species) x (cache empty | populated by 2 Lij calls before saving) x '
+        'and two crystals given in a non-primitive cell; i.e. 2-D and 3-D, multi-site, multi-Wyckoff, two species) x (cache empty | populated by 2 Lij calls before saving) x '
         'Nthermo 1 (thorough: also 2 on the cheap crystals) with fully random thermodynamic inputs; plus cases on random '
         'crystals (all lattice systems) for StarSet / VectorStarSet / GFCrystalcalc / Taylor / YAML round trips; '
         'non-trivial = every case (>= 1 round trip with >= 2 subsequent inputs); distinct = (crystal, Nthermo, history)')
@@ -36,6 +36,7 @@ REQUIRED_OBS = {'roundtrip:VacancyMediated': 8, 'roundtrip:VacancyMediated:popul
                 'eval:C13:yaml:ClusterSite': 10, 'eval:C13:yaml:Cluster': 20, 'eval:C13:yaml:vTK': 6,
                 'dim2_roundtrips': 3, 'multisite_roundtrips': 3, 'multiwyckoff_roundtrips': 2, 'yaml_cluster_kinds': 3}
 CASE_TIMEOUT = 600
+CHUNK = 3
 CHEAP = ('square', 'tria', 'honey', 'lieb', 'kagome', 'rect', 'dtria', 'sc', 'tet')
 SKIP = {('VacancyMediated', 'threshold'), ('StarSet', 'originstates')}
 
@@ -46,6 +47,9 @@ def cases(tier, seed):
     for k, name in enumerate(names):
         for pop in (0, 1):
             out.append({'seed': seed, 'idx': len(out), 'hashseed': (k + pop + seed) % 5, 'kind': 'vm', 'name': name, 'Nthermo': 1, 'populate': pop})
+    # crystals handed over in a non-primitive cell (the constructor reduces them and rescales its threshold)
+    for k, name in enumerate(('bcc-conventional', 'square-centred')):
+        out.append({'seed': seed, 'idx': len(out), 'hashseed': (k + seed) % 5, 'kind': 'vm', 'name': name, 'Nthermo': 1, 'populate': k})
     nrand = 10 if tier == 'quick' else 120
     for i in range(nrand):
         out.append({'seed': seed, 'idx': len(out), 'hashseed': i % 5, 'kind': 'rand'})
@@ -461,12 +465,18 @@ def _nn(crys, chem):
 
 # ------------------------------------------------------------------------------------------
 def run_case(case):
-    from onsager import OnsagerCalc
+    from onsager import OnsagerCalc, crystal
     mon = Mon()
     rng = gen.rng_for(case['seed'], case['idx'], 13)
     if case['kind'] == 'vm':
         name = case['name']
-        crys, chem, cut = gen.named(name)
+        if name == 'bcc-conventional':
+            crys, chem, cut = crystal.Crystal(np.eye(3), [np.zeros(3), np.array([.5, .5, .5])]), 0, 0.87
+        elif name == 'square-centred':
+            crys, chem, cut = crystal.Crystal(np.eye(2), [np.zeros(2), np.array([.5, .5])]), 0, 0.75
+        else:
+            crys, chem, cut = gen.named(name)
+        if isinstance(crys.threshold, np.generic): mon.tag('crystal-threshold-is-numpy-scalar')
         sitelist, jn = crys.sitelist(chem), crys.jumpnetwork(chem, cut)
         ctx = '| crystal %s chem %d cutoff %s Nthermo %d populate %d hashseed %s' % (name, chem, cut, case['Nthermo'], case['populate'], case.get('hashseed'))
         try:
@@ -499,6 +509,7 @@ def run_case(case):
     sitelist, jn = crys.sitelist(chem), crys.jumpnetwork(chem, cut)
     njumps = sum(len(j) for j in jn)
     mon.sig(['rand', spec['kind'], [len(l) for l in crys.basis], len(crys.G), len(jn)])
+    if isinstance(crys.threshold, np.generic): mon.tag('crystal-threshold-is-numpy-scalar')
     mon.count('dim2_roundtrips', crys.dim == 2)
     check_yaml(mon, rng, crys, chem, ctx)
     check_taylor(mon, rng, crys.dim, ctx)
